@@ -181,6 +181,10 @@ var vrtRegexClasses = map[string]*regexp.Regexp{
 	"int":       regexp.MustCompile(`^[+-]?[0-9]+$`),
 	"ncname_id": regexp.MustCompile(`^_[0-9a-f]{8}-[0-9a-f]{4}-[0-9a-f]{4}-[0-9a-f]{4}-[0-9a-f]{12}$`),
 	"nobrace":   regexp.MustCompile(`^[^{}]*$`),
+	"hostchars":  regexp.MustCompile(`^[a-z0-9.-]*$`),
+	"hosttoken":  regexp.MustCompile(`^[a-z0-9.-]+$`),
+	"pathchars":  regexp.MustCompile(`^(/?[a-z0-9]+(/[a-z0-9]+)*/?)?$`),
+	"querychars": regexp.MustCompile(`^[a-z0-9=]*$`),
 }
 
 func vrtMatches(s, class string) bool { return vrtRegexClasses[class].MatchString(s) }
